@@ -38,7 +38,7 @@ Proof.
   destruct (kid_std_fds _ _ _ _ _ _ _ _ _ _ _ KS HE) as (A & B & C). split; [exact A|].
   intro NR. rewrite NR in B, C.
   assert (LE : idx <= length (p_stages pl) - 1) by lia.
-  rewrite (final_sinks_posix (p_capture pl) (length (p_stages pl) - 1) idx [] o0 e0 LE (or_intror eq_refl)) in B, C.
+  rewrite (final_sinks_posix v (p_capture pl) (length (p_stages pl) - 1) idx [] o0 e0 LE (or_intror (or_introl eq_refl))) in B, C.
   replace (S (length (p_stages pl) - 1)) with (length (p_stages pl)) in B, C by lia.
   split; [exact B | exact C].
 Qed.
